@@ -110,6 +110,10 @@ func runC03Proposal(c *Ctx, ce *Ceremony, poly *share.PubPoly, r *sched.Rng, wi,
 				shape += "X"
 			}
 		}
+		// one identifier is deliberately re-used by every hand-built proposal of this world, each time
+		// with another payload (identifiers are only unique within a batch)
+		tasks = append(tasks, requests.SigningTask{MessageID: "shared-id", File: "shared", Payload: []byte(fmt.Sprintf("payload of proposal %d/%d", wi, pi))})
+		shape += "+shared"
 		m := HandBuiltProposal(ce.W.Nodes[spec.Proposer], ce.Round, fmt.Sprintf("hand-%d-%d", wi, pi), spec.Proposer, tasks)
 		spec.Hand = &m
 		shape = "hand-" + shape
